@@ -13,7 +13,7 @@ import json
 import os
 import re
 
-from .. import core, coverage, emit, guards, vt, wiring
+from .. import inline, core, coverage, emit, guards, vt, wiring
 
 SMART_POINTERS = {'Box', 'Arc', 'Rc', 'Cow', 'Cell', 'RefCell', 'Mutex', 'RwLock'}
 
@@ -31,7 +31,52 @@ def run(ctx, rep):
     t3(ctx, rep, T)
     t45(ctx, rep, T)
     t6(ctx, rep, T)
+    t8(ctx, rep, T)
     wiring.backend_wiring(ctx, rep, 'T7', only_fields={'type_mappings'})
+
+
+def t8(ctx, rep, T):
+    """T8: the helper type generated for a struct variant is *declared* with a list of the enum's generic parameters
+    (write_types_for_anonymous_structs) and *referenced* with a list of generic arguments (each backend's variant
+    printer).  Both lists are computed from the variant's fields and the enum's parameter list; they denote the same
+    sequence only if they iterate in the same nesting — fields outermost (order of first use) or parameters outermost
+    (declaration order) — and both or neither deduplicate."""
+    def shape(v):
+        # outermost iterated collection of the pipeline that tests `contains_type`, and whether it is deduplicated
+        best = None
+        for x in vt.walk(v):
+            if x.get('k') == 'call' and x.get('recv') is not None and any(y.get('k') == 'call' and y.get('f') == 'contains_type' for a in x.get('args', []) for y in vt.walk(a)):
+                root, chain = vt.unvar(x['recv']), []
+                while isinstance(root, dict) and root.get('k') == 'call' and root.get('recv') is not None:
+                    chain.append(root.get('f'))
+                    root = vt.unvar(root['recv'])
+                txt = vt.show(root)
+                kind = 'parameters' if 'generic' in txt else ('fields' if 'fields' in txt else txt[-20:])
+                cand = (kind, x.get('f'))
+                if best is None or len(json.dumps(x)) > best[2]:
+                    best = (kind, x.get('f'), len(json.dumps(x)))
+        if best is None:
+            return None
+        dedup = any(y.get('k') == 'call' and y.get('f') in ('unique', 'dedup', 'sorted') for y in vt.walk(v))
+        return best[0], dedup
+    d = ctx.fnx('Language::write_types_for_anonymous_structs', file='language/mod.rs')
+    decl = None
+    for stl in d['structs']:
+        if stl['path'].split('::')[-1] == 'RustStruct':
+            decl = shape(stl['v']['fields'].get('generic_types'))
+    if decl is None:
+        raise core.Incomplete('write_types_for_anonymous_structs: the generic parameter list of the helper struct was not found')
+    n = 0
+    for be, (struct, file) in emit.BACKENDS.items():
+        for g in inline.file_views(ctx, file):
+            for l in g['lets']:
+                if isinstance(l.get('v'), dict) and any(y.get('k') == 'call' and y.get('f') == 'contains_type' for y in vt.walk(l['v'])):
+                    use = shape(l['v'])
+                    if use is None:
+                        continue
+                    n += 1
+                    rep.check(use == decl, 'T8', f"{be}:{g['name']}:helper-generic-order", f'arguments computed like the parameters ({decl[0]} outermost{", deduplicated" if decl[1] else ""})', f"{be}: {g['qual']} computes the generic arguments of the struct-variant helper type with {use[0]} outermost{' (deduplicated)' if use[1] else ''}, its declaration with {decl[0]} outermost{' (deduplicated)' if decl[1] else ''}: for `enum E<A, B> {{ V {{ y: B, x: A }} }}` the helper is declared `<{'A, B' if decl[0] == 'parameters' else 'B, A'}>` but referenced `<{'A, B' if use[0] == 'parameters' else 'B, A'}>` — type arguments bound to the wrong parameters", {'file': g['file'], 'line': l.get('line')})
+    rep.floor('T8', 'helper-type generic argument computations', n, 3)
 
 
 def t1(ctx, rep, T):
